@@ -84,10 +84,14 @@ func (m *Model) Infer(t *syntax.Transaction) {
 		credit := t.Bookings[i].Credit.Extract()
 		debit := t.Bookings[i].Debit.Extract()
 		if credit == m.account {
-			t.Bookings[i].Credit = m.inferAccount(t, &t.Bookings[i], debit)
+			if a := m.inferAccount(t, &t.Bookings[i], debit); !a.Empty() {
+				t.Bookings[i].Credit = a
+			}
 		}
 		if debit == m.account {
-			t.Bookings[i].Debit = m.inferAccount(t, &t.Bookings[i], credit)
+			if a := m.inferAccount(t, &t.Bookings[i], credit); !a.Empty() {
+				t.Bookings[i].Debit = a
+			}
 		}
 	}
 }
